@@ -88,6 +88,12 @@ func histString(ops []HOp) string {
 }
 
 // identity of planned session k: unique subjects, source and target.
+// tsIdx maps an operation index to the millisecond offset of its record's
+// timestamp and back (it is its own inverse): adjacent operations carry
+// swapped timestamps, so record time regularly runs backwards with respect to
+// processing order (late records, clock steps) - order means processing order.
+func tsIdx(i int) int { return i ^ 1 }
+
 // userIdx: one session in three logs in as the same account, from the same
 // address, to the same host as session 0 - as happens when one person opens
 // several connections; those identities differ only in the sshd pid.
@@ -241,7 +247,7 @@ func checkHistory(plan Plan, ops []HOp, res *histResult, reuse bool) []finding {
 				add("C04", "non-useraction-from-tracker", fmt.Sprintf("op#%d %s emitted a %q event", i, op, ev.Type))
 				continue
 			}
-			src := int(ev.LoggedAt.UnixMilli() - vlib.BaseTSms)
+			src := tsIdx(int(ev.LoggedAt.UnixMilli() - vlib.BaseTSms))
 			if src < 0 || src >= len(ops) || src > i {
 				add("C04", "fabricated-event", fmt.Sprintf("op#%d %s emitted an event with unknown timestamp %v", i, op, ev.LoggedAt))
 				continue
@@ -379,7 +385,7 @@ func (x apiExec) run(plan Plan, ops []HOp) *histResult {
 	last := time.Now().UTC()
 	for i, op := range ops {
 		n0 := rec.Len()
-		ts := vlib.BaseTSms + int64(i)
+		ts := vlib.BaseTSms + int64(tsIdx(i))
 		seq := uint32(1000 + i)
 		switch op.Kind {
 		case opLogin:
@@ -527,7 +533,7 @@ func (rawExec) run(plan Plan, ops []HOp) (*histResult, error) {
 			break
 		}
 		n0 := rec.Len()
-		ts := vlib.BaseTSms + int64(i)
+		ts := vlib.BaseTSms + int64(tsIdx(i))
 		seq++
 		switch op.Kind {
 		case opLogin:
